@@ -215,6 +215,7 @@ type Tables struct {
 type Impl struct {
 	ID           string
 	NewLexer     func(src []byte) Lexer
+	NewLexerCtx  func(src []byte) Lexer // lexer whose Context field is set (tokens must carry it: Token.Ctx)
 	NumLexStates int
 	TransTab     func(s int, r rune) int
 	ActTab       func(s int) (accept int, ignore string)
